@@ -1,8 +1,7 @@
 package verif
 
 import (
-	"crypto/ecdsa"
-	"crypto/elliptic"
+	"crypto/ed25519"
 	"crypto/rand"
 	"crypto/x509"
 	"crypto/x509/pkix"
@@ -20,7 +19,7 @@ type KeyPair struct {
 	CertPEM string
 	KeyPEM  string
 	cert    *x509.Certificate
-	key     *ecdsa.PrivateKey
+	key     ed25519.PrivateKey
 }
 
 type PKI struct {
@@ -48,7 +47,10 @@ var (
 )
 
 func mkCA(cn string, serial int64) KeyPair {
-	key, err := ecdsa.GenerateKey(elliptic.P256(), rand.Reader)
+	// Ed25519 throughout: keys, signatures and therefore certificates and handshake messages have the same
+	// length in every process and every handshake (ECDSA signatures are 70-72 bytes, which made the byte
+	// counts on the wire - and with them the drawn segmentations - differ between runs of the same choices)
+	pub, key, err := ed25519.GenerateKey(rand.Reader)
 	if err != nil {
 		panic(err)
 	}
@@ -61,14 +63,14 @@ func mkCA(cn string, serial int64) KeyPair {
 		BasicConstraintsValid: true,
 		KeyUsage:              x509.KeyUsageCertSign | x509.KeyUsageDigitalSignature,
 	}
-	der, err := x509.CreateCertificate(rand.Reader, tpl, tpl, &key.PublicKey, key)
+	der, err := x509.CreateCertificate(rand.Reader, tpl, tpl, pub, key)
 	if err != nil {
 		panic(err)
 	}
 	return pack(der, key)
 }
 
-func pack(der []byte, key *ecdsa.PrivateKey) KeyPair {
+func pack(der []byte, key ed25519.PrivateKey) KeyPair {
 	c, err := x509.ParseCertificate(der)
 	if err != nil {
 		panic(err)
@@ -85,7 +87,7 @@ func pack(der []byte, key *ecdsa.PrivateKey) KeyPair {
 }
 
 func mkLeaf(ca KeyPair, cn string, serial int64, dns []string, ips []string, notBefore, notAfter time.Time, client bool) KeyPair {
-	key, err := ecdsa.GenerateKey(elliptic.P256(), rand.Reader)
+	pub, key, err := ed25519.GenerateKey(rand.Reader)
 	if err != nil {
 		panic(err)
 	}
@@ -105,7 +107,7 @@ func mkLeaf(ca KeyPair, cn string, serial int64, dns []string, ips []string, not
 	for _, ip := range ips {
 		tpl.IPAddresses = append(tpl.IPAddresses, net.ParseIP(ip))
 	}
-	der, err := x509.CreateCertificate(rand.Reader, tpl, ca.cert, &key.PublicKey, ca.key)
+	der, err := x509.CreateCertificate(rand.Reader, tpl, ca.cert, pub, ca.key)
 	if err != nil {
 		panic(err)
 	}
